@@ -127,10 +127,11 @@ func (its *TransactionDatatype) BeginTransaction(
 // Rollback is called to rollback a transaction
 func (its *TransactionDatatype) Rollback() errors.OrdaError {
 	its.L().Infof("Begin the rollback: '%s'", its.txCtx.tag)
+	rollbackOps := its.rollbackOps
 	if err := its.SetMetaAndSnapshot(its.rollbackMeta, its.rollbackSnapshot); err != nil {
 		return errors.DatatypeTransaction.New(its.L(), "rollback failed")
 	}
-	for _, op := range its.rollbackOps {
+	for _, op := range rollbackOps {
 		if err := its.Replay(op); err != nil {
 			return errors.DatatypeTransaction.New(its.L(), "rollback failed")
 		}
@@ -142,6 +143,13 @@ func (its *TransactionDatatype) Rollback() errors.OrdaError {
 	its.rollbackOps = nil
 	its.L().Infof("End the rollback: '%s'", its.txCtx.tag)
 	return nil
+}
+
+// SetRollbackPoint makes the given meta and snapshot the state that a failing transaction is rolled back to.
+func (its *TransactionDatatype) SetRollbackPoint(meta, snap []byte) {
+	its.rollbackMeta = meta
+	its.rollbackSnapshot = snap
+	its.rollbackOps = nil
 }
 
 // SetTransactionFail is called when a transaction fails
